@@ -216,7 +216,7 @@ def pFields : Nat → List (TsKey × Ts) → Str → Option (List (TsKey × Ts) 
 end
 
 def parseType (s : Str) : Option Ts :=
-  match pType (s.length + 8) s with
+  match pType (8 * s.length + 16) s with      -- every nesting level costs a handful of calls: `[[[]]]` is 6 characters and 3 levels deep
   | some (t, r) => if ws r = [] then some t else none
   | none => none
 
